@@ -531,17 +531,23 @@ def loop_progress(chk, rule, f, is_progress, label, implied_nonempty=True):
         # an inner `while X > a` directly inside an outer `while X > b` with b >= a runs at least once per entry: its
         # zero-trip exit is infeasible, so reaching its false branch implies the body (and its progress) was executed
         def gt(test):
-            if isinstance(test, ast.Compare) and len(test.ops) == 1 and isinstance(test.ops[0], ast.Gt) and isinstance(test.left, ast.Name) \
+            if isinstance(test, ast.Compare) and len(test.ops) == 1 and isinstance(test.ops[0], (ast.Gt, ast.GtE)) and isinstance(test.left, ast.Name) \
                     and isinstance(test.comparators[0], ast.Constant) and isinstance(test.comparators[0].value, (int, float)):
-                return test.left.id, test.comparators[0].value
+                return test.left.id, test.comparators[0].value, isinstance(test.ops[0], ast.Gt)
             return None
+
+        def implies(b, a):
+            """outer bound b holds => inner bound a holds (over the reals)"""
+            if a[2] and not b[2]:           # x >= b  =>  x > a
+                return b[1] > a[1]
+            return b[1] >= a[1]
         whiles = [h.ast for h in heads]
         for outer in whiles:
             for inner in whiles:
                 if inner is outer or not any(x is inner for st in outer.body for x in ast.walk(st)):
                     continue
                 a, b = gt(inner.test), gt(outer.test)
-                if a and b and a[0] == b[0] and b[1] >= a[1]:
+                if a and b and a[0] == b[0] and implies(b, a):
                     # no store to the variable between the outer test and the inner loop on the way in
                     prog += [br.id for br in cfg.nodes if br.kind == "branch" and br.value is False and src(br.ast) == src(inner.test)
                              and br.lineno == inner.lineno]
